@@ -125,3 +125,60 @@ def decide(conds, c):
         if "<" in o2: return True
     return None
 
+
+
+def _norm_fact(k):
+    """fact as (poly, strict) meaning poly < 0 (strict) or poly <= 0; equalities give two facts"""
+    if k.poly is None:
+        return []
+    p = k.poly
+    if k.op == "<": return [(p, True)]
+    if k.op == "<=": return [(p, False)]
+    if k.op == ">": return [(-p, True)]
+    if k.op == ">=": return [(-p, False)]
+    if k.op == "==": return [(p, False), (-p, False)]
+    return []
+
+
+def saturate(conds, rounds=1, cap=400):
+    """bounded saturation: integer tightening (p < 0 => p + 1 <= 0) and pairwise sums of inequality facts.
+    Returns conds plus the derived facts (a fixed, terminating procedure; no solver)."""
+    base = []
+    for k in conds:
+        base += _norm_fact(k)
+    # integer tightening: p < 0  <=>  p + 1 <= 0 ; keep both forms
+    facts = []
+    seen = set()
+
+    def add(p, strict):
+        key = (p.key(), strict)
+        if key in seen:
+            return
+        seen.add(key)
+        facts.append((p, strict))
+    for p, s in base:
+        add(p, s)
+        if s:
+            add(p + ONE, False)
+    cur = list(facts)
+    for _ in range(rounds):
+        new = []
+        for i in range(len(cur)):
+            for j in range(i + 1, len(cur)):
+                p = cur[i][0] + cur[j][0]
+                if len(p.t) > 6 or not p.t:
+                    continue
+                s = cur[i][1] or cur[j][1]
+                key = (p.key(), s)
+                if key not in seen:
+                    seen.add(key)
+                    new.append((p, s))
+                if len(new) > cap:
+                    break
+            if len(new) > cap:
+                break
+        cur = cur + new
+    out = list(conds)
+    for p, s in cur:
+        out.append(Cond("<" if s else "<=", p))
+    return out
